@@ -734,6 +734,20 @@ fn run_once(work: Work, steps: usize, crash_at: Option<usize>, bounce_after: Opt
             break;
         }
     }
+    // the surviving peers hold at most one stream each at any time (they drop a connection before
+    // they dial the next one): streams that were established with the crashed incarnation and
+    // have been dropped since no longer count on the peers' side either
+    if violation.is_none() && matches!(work, Work::TcpReading | Work::TcpNotReading | Work::TcpSlowAccept | Work::TcpVictimWrites | Work::TcpPeerStreams) {
+        for p in ["p1", "p2"] {
+            let c = sim.verif_host_counts(p);
+            if c.2 > 1 {
+                violation = Some(Violation::new(
+                    "peer-table",
+                    format!("at the end of the run host {p}, which holds at most one stream at a time, has {} entries in its stream table (udp binds, tcp listeners, tcp streams) = {:?}", c.2, c),
+                ));
+            }
+        }
+    }
     Run { st, violation, obs }
 }
 
